@@ -2734,6 +2734,13 @@ static void state_read_content(struct snapraid_state* state, const char* path, S
 
 			/* auto configure if configuration is missing */
 			if (state->no_conf) {
+				if (v_split_mac > SPLIT_MAX) {
+					/* LCOV_EXCL_START */
+					decoding_error(path, f);
+					log_fatal("Invalid number of splits '%u' for parity '%s'!\n", v_split_mac, lev_config_name(v_level));
+					exit(EXIT_FAILURE);
+					/* LCOV_EXCL_STOP */
+				}
 				if (v_level >= state->level)
 					state->level = v_level + 1;
 				if (state->parity[v_level].split_mac < v_split_mac)
